@@ -408,6 +408,40 @@ def rule_r7(repo, col):
     col.floor("R7.local_anonymous_registrations", n, 1)
 
 
+def rule_r8(repo, col):
+    """engine nodes collect the messages they send in a list that starts empty and is returned at the end: inside a loop that list is only extended (`+=` / append / extend),
+    never re-bound - a plain assignment keeps the messages of the last iteration only (buffered answers released one by one reach the parent only in their last instance)"""
+    n_aug = 0
+    n_bad = 0
+    for f in repo.all_functions():
+        if f.module.name not in ("problog.eval_nodes", "problog.engine_stack"):
+            continue
+        inits = set()
+        for st in walk_no_nested(f.node):
+            if isinstance(st, ast.Assign) and isinstance(st.targets[0], ast.Name) and isinstance(st.value, ast.List) and not st.value.elts:
+                inits.add(st.targets[0].id)
+        returned = {x.id for r in walk_no_nested(f.node) if isinstance(r, ast.Return) and r.value is not None for x in ast.walk(r.value) if isinstance(x, ast.Name)}
+        accs = inits & returned
+        if not accs:
+            continue
+        for lp in [x for x in walk_no_nested(f.node) if isinstance(x, (ast.For, ast.While))]:
+            for st in ast.walk(lp):
+                if isinstance(st, ast.AugAssign) and isinstance(st.target, ast.Name) and st.target.id in accs:
+                    n_aug += 1
+                if isinstance(st, ast.Assign) and any(isinstance(t_, ast.Name) and t_.id in accs for t_ in st.targets) and not (isinstance(st.value, ast.List) and not st.value.elts):
+                    # re-binding to an expression that contains the accumulator itself (x = x + ...) is an extension
+                    if any(isinstance(x, ast.Name) and x.id in accs for x in ast.walk(st.value)):
+                        n_aug += 1
+                        continue
+                    n_bad += 1
+                    col.fail("R8", f.module, st, "%s re-binds its message list inside a loop (%s): only the messages of the last iteration are returned - the answers released before it are "
+                             "never sent, so a tabled goal loses answers (path(a,Y) over a cyclic graph misses instances)" % (f.qualname, norm(st)[:60]),
+                             construct="%s: message list re-bound in a loop" % f.qualname, function=f.qualname)
+    col.ok("R8", repo.modules["problog.eval_nodes"], repo.modules["problog.eval_nodes"].tree, "engine modules scanned: %d in-loop extensions of returned message lists, %d re-bindings" % (n_aug, n_bad),
+           construct="engine nodes: message-list accumulation scan", function="<module>")
+    col.floor("R8.loop_extensions", n_aug, 8)
+
+
 def run(repo, col):
     col.rule("R5", "the answer buffer records every proof node (duplicates included)")
     col.rule("R1", "ClauseIndex.find returns clause ids in program order (abstract interpretation)")
@@ -422,3 +456,5 @@ def run(repo, col):
     rule_r6(repo, col)
     col.rule("R7", "anonymous variables of a local scope are pairwise distinct")
     rule_r7(repo, col)
+    col.rule("R8", "message lists are only extended inside loops")
+    rule_r8(repo, col)
